@@ -7,7 +7,18 @@ pub const TRANS_LAT: f64 = 0.7297276562269663;
 
 pub static SIGNATURES: &[(&str, FindingPred)] = &[
   ("R5", r5_bsd),
+  ("R5", r5_cone_miss),
 ];
+
+/// R5 seen through the coverage queries (C05, C13 circular case): a miss whose missed cell lies outside the 3x3 block
+/// of the start depth, for a cone in the R5 zone (|lat| > asin(2/3), within 0.15 rad in longitude of a meridian k.pi/2,
+/// r / threshold(start depth) in (0.95, 1)).
+fn r5_cone_miss(sig: &str, c: &Case) -> bool {
+  if sig != "cone-coverage-misses-a-cell-containing-a-point-of-the-cone" && sig != "circular-ellipse-misses-a-cell-touched-by-the-cone" { return false; }
+  if c.get("ratio").is_none() || c.get("dlon_seam").is_none() || c.get("in_start_block").is_none() { return false; }
+  let (ratio, dl, lat) = (c.gf("ratio"), c.gf("dlon_seam"), c.gf("lat"));
+  !c.gb("in_start_block") && lat.abs() > TRANS_LAT && dl <= 0.15 && ratio > 0.95 && ratio < 1.0
+}
 
 /// R5 — best_starting_depth table too large at the thin Collignon cells next to polar-cap seams:
 /// C16: sig = containment claim, |lat| > asin(2/3), centre within 0.15 rad (in longitude) of a meridian k.pi/2,
